@@ -20,6 +20,7 @@ sys.path.insert(0, str(Path(__file__).resolve().parent))
 import lib  # noqa
 import c15_gen as G  # noqa
 import c15_hist as H  # noqa
+import c15_mod as MOD  # noqa
 
 PID = 'C15'
 TOL64 = Fr(1, 2 ** 36)     # binary64 path (divisions, sqrt, 3x3 inverse; cond <= ~1e3)
@@ -79,6 +80,8 @@ def n_vertices(mesh, kw):
 
 
 def tol_for(mesh, kw):
+    if mesh.get('xyz_dtype') == 'float32':
+        return TOL32       # every offset, distance and centroid is computed in float32
     # femio's hex volume kernel returns float32 values
     if mesh['etype'] in ('hex', 'mix') and kw['consider_volume']:
         return TOL32
@@ -203,11 +206,17 @@ def plan(ctx):
         dims = tuple(rng.sample(dims, 3))
         mp = rng.choice(list(G.MAPS))
         jitter = rng.random() < (0.7 if et == 'tet' else 0.5)
-        idm = rng.choice(['sparse', 'sparse', 'large', 'dense'])
-        shuffle = not (idm == 'dense' and rng.random() < 0.5)
-        mesh = G.gen_mesh(rng, et, dims, spacing_max=2, jitter=jitter, map_name=mp,
-                          id_mode=idm, shuffle=shuffle)
+        idm = rng.choice(['sparse', 'sparse', 'large', 'huge', 'dense', 'offset'])
+        order = rng.choice(['shuffled', 'shuffled', 'sorted', 'reversed', 'ends_fixed', 'swap2', 'move1'])
+        elem_order = rng.choice(['shuffled', 'sorted', 'reversed', 'ends_fixed', 'swap2', 'move1'])
+        holes = 0.3 if (k % 5 == 3 and min(dims) >= 2 and max(dims) >= 3) else 0.0
+        mesh = G.gen_mesh(rng, et, dims, spacing_max=rng.choice([2, 2, 3, 6]), jitter=jitter, map_name=mp,
+                          id_mode=idm, order=order, elem_order=elem_order, holes=holes)
         G.scale_mesh(mesh, rng.choice(SCALE_EXPS))
+        # coordinate dtype handed to femio (integers only where the coordinates are integers)
+        dts = ['float64'] * 5 + ['float32'] + (['int64', 'int32'] if mesh['scale_exp'] >= 0 else [])
+        mesh['xyz_dtype'] = rng.choice(dts)
+        mesh['descr']['xyz_dtype'] = mesh['xyz_dtype']
         mesh['exact_vol'] = exact_volumes(mesh)
         mesh['min_degree'] = {md: min_degree(mesh, md) for md in ('nodal', 'elemental')}
         meshes[f'm{k}'] = mesh
@@ -227,8 +236,8 @@ def plan(ctx):
                 if kw['consider_volume'] and kw['mode'] == 'nodal' and not kw['use_effective_volume'] \
                         and mesh['exact_vol'] is None:
                     continue       # float32 volumes: 'mean' weights would be 50-bit fractions
-                if mesh['min_degree'][kw['mode']] < 1:
-                    continue       # a vertex without neighbours: outside the property
+                if mesh['min_degree'][kw['mode']] < 1 and kw['moment_matrix']:
+                    continue       # a vertex without neighbours: M_i = 0, outside the property
                 # a hop count larger than the graph diameter adds nothing new;
                 # still allowed, but prefer meshes where hop matters
                 if cost_estimate(mesh, kw, cache) > per_case_cap:
@@ -348,7 +357,7 @@ def plan_extended(ctx):
 
 def run_impl(ctx, meshes, jobs, tag='impl'):
     out = ctx.scratch / f'{tag}_out.json'
-    keys = ('etype', 'node_ids', 'xyz', 'elem_ids', 'conn', 'blocks', 'k1')
+    keys = ('etype', 'node_ids', 'xyz', 'elem_ids', 'conn', 'blocks', 'k1', 'xyz_dtype')
     spec = {'out': str(out), 'meshes': {m: {k: v[k] for k in keys if k in v} for m, v in meshes.items()},
             'jobs': jobs}
     r = subprocess.run([lib.PY, str(lib.VERIF / 'harness' / 'c15_impl.py')],
@@ -365,6 +374,9 @@ def oracle_case(mesh, case, mats, conv, P, well):
     returns list of (check, detail)"""
     bad = []
     n = len(P)
+    f32 = mesh.get('xyz_dtype') == 'float32'
+    t_sum = Fr(1, 2 ** 16) if f32 else Fr(1, 2 ** 40)
+    t_aff = Fr(1, 10 ** 4) if f32 else Fr(1, 10 ** 9)
     rows3 = [rows_from_coo(A, n) for A in mats]
     # (1) constants -> 0: every row of every matrix sums to zero (the diagonal
     # is minus the sum of the others), within the rounding of one float sum
@@ -372,7 +384,7 @@ def oracle_case(mesh, case, mats, conv, P, well):
         for i, row in enumerate(rows):
             s = sum(x for _, x in row)
             sa = sum(abs(x) for _, x in row)
-            if abs(s) > Fr(1, 2 ** 40) * sa:
+            if abs(s) > t_sum * sa:
                 bad.append(('const-zero', {'axis': a, 'row': i, 'row_sum': float(s),
                                            'abs_sum': float(sa)}))
                 break
@@ -387,7 +399,7 @@ def oracle_case(mesh, case, mats, conv, P, well):
                     val = sum(x * f[j] for j, x in row)
                     # scale: |g| + (operator norm of the row) x (size of the field)
                     sc = max(abs(Fr(x)) for x in g) + sum(abs(x) for _, x in row) * fmax
-                    if abs(val - g[a]) > Fr(1, 10 ** 9) * sc:
+                    if abs(val - g[a]) > t_aff * sc:
                         bad.append(('affine-exact', {'axis': a, 'row': i, 'g': g, 'c': c,
                                                      'computed': float(val), 'true': g[a]}))
                         stop = True
@@ -413,7 +425,7 @@ def oracle_case(mesh, case, mats, conv, P, well):
                     for k in range(nfeat):
                         val = sum(x * data[j][k] for j, x in row)
                         sc = sum(abs(x) for _, x in row) * dmax + Fr(1, 2 ** 60)
-                        if abs(val - gr[(i * 3 + a) * nfeat + k]) > Fr(1, 2 ** 40) * sc:
+                        if abs(val - gr[(i * 3 + a) * nfeat + k]) > t_sum * sc:
                             bad.append(('convenience', {'vertex': i, 'axis': a, 'feature': k,
                                                         'by_hand': float(val),
                                                         'returned': float(gr[(i * 3 + a) * nfeat + k])}))
@@ -709,8 +721,220 @@ def history_stream(ctx, meshes, cost_cache, corpus_seqs=()):
                 f[3] = dict(f[3], sequence=sq2, failing_step=len(sq2['steps']) - 1,
                             shrunk_from=len(f[3]['sequence']['steps']))
                 f[5] = dict(b2[0][2], step=len(sq2['steps']) - 1)
+                f[7] = b2[0][1]
                 f[0] = len(sq2['P']) * 100 + len(sq2['steps']) - 10000     # shrunk ones are reported first
     return [tuple(f) for f in failures], items, hcases
+
+
+# ------------------------------------------------- in-place modification stream
+def snapshot_mesh(snap, base):
+    m = {'etype': snap['etype'], 'node_ids': snap['node_ids'],
+         'xyz': [[float.fromhex(c) for c in p] for p in snap['xyz']],
+         'elem_ids': snap['elem_ids'], 'conn': snap['conn'],
+         'descr': dict(base.get('descr', {}), modified=True)}
+    if 'scale_exp' in base:
+        m['scale_exp'] = base['scale_exp']
+    # fem_data.nodes and nodal_data['NODE'] can drift apart (in-place edit of
+    # nodes.data leaves the data frame behind; remove_useless_nodes rebuilds
+    # 'NODE' from the frame as a separate object): that is the attribute-table
+    # property C08; C15's model reads 'NODE' like the code does
+    m['nodes_vs_NODE_inconsistent'] = (snap.get('xyz_nodes') != snap['xyz']
+                                       or snap.get('NODE_ids') != snap['node_ids'])
+    return m
+
+
+def run_mod_sequences(ctx, meshes, seqs, tag):
+    """run each sequence on ONE object (phase 1), then fresh objects built from
+    the meshes the object reported (phase 2); evaluate every op step.
+    returns per sequence: list of dicts (one per op step)"""
+    this = sys.modules[__name__]
+    jobs = []
+    for sq in seqs:
+        sq['job'] = len(jobs)
+        jobs.append({'id': len(jobs), 'mesh': sq['mesh'], 'kind': 'sequence',
+                     'steps': MOD.impl_steps(sq['steps'])})
+    res = run_impl(ctx, meshes, jobs, tag=tag + '_1')
+    # walk the outputs, tracking the mesh the object reports
+    evals, fresh_jobs, fresh_meshes = [], [], {}
+    for sqi, sq in enumerate(seqs):
+        r = res[sq['job']]
+        outs = r.get('steps') or []
+        cur = meshes[sq['mesh']]
+        cur_id = sq['mesh']
+        k_out = 0
+        ev = []
+        for k, st in enumerate(sq['steps']):
+            if st['kind'] == 'modify':
+                o = outs[k_out] if k_out < len(outs) else {'error': r.get('error', 'no output')}
+                k_out += 1
+                if 'snapshot' in o:
+                    cur = snapshot_mesh(o['snapshot'], meshes[sq['mesh']])
+                    cur_id = f"{sq['mesh']}s{k}"
+                    fresh_meshes[cur_id] = cur
+                else:
+                    ev.append({'step': k, 'st': st, 'cur': cur, 'cur_id': cur_id,
+                               'bad': [('modification-raised', {'op': st['op'], 'error': o.get('error')})],
+                               'info': {'n': 0}, 'mats': o, 'conv': o})
+                continue
+            mo = outs[k_out] if k_out < len(outs) else {'error': r.get('error', 'no output')}
+            co = outs[k_out + 1] if k_out + 1 < len(outs) else {'error': r.get('error', 'no output')}
+            k_out += 2
+            e = {'step': k, 'st': st, 'cur': cur, 'cur_id': cur_id, 'mats': mo, 'conv': co,
+                 'fresh_job': len(fresh_jobs)}
+            fresh_meshes.setdefault(cur_id, cur)
+            fresh_jobs.append({'id': len(fresh_jobs), 'mesh': cur_id, 'kind': 'matrices', 'kw': st['kw']})
+            ev.append(e)
+        evals.append(ev)
+    fres = run_impl(ctx, fresh_meshes, fresh_jobs, tag=tag + '_2') if fresh_jobs else {}
+    for ev in evals:
+        for e in ev:
+            if 'bad' in e:
+                continue
+            e['fresh'] = fres.get(e['fresh_job'])
+            e['bad'], e['info'] = MOD.check_op(this, e['cur'], e['st'], e['mats'], e['conv'], e['fresh'])
+    return evals
+
+
+def mod_kw_pool(rng, mesh):
+    diam2 = max(sum((a - b) ** 2 for a, b in zip(p, mesh['xyz'][0])) for p in mesh['xyz'])
+    pool = []
+    for hop in (1, 2):
+        for cv in (False, True):
+            for mm in (False, True):
+                pool.append(dict(n_hop=hop, consider_volume=cv, use_effective_volume=True, moment_matrix=mm))
+    pool.append(dict(n_hop=1, consider_volume=True, use_effective_volume=True, moment_matrix=True,
+                     kernel='gauss', alpha=2.0 / max(diam2, 1e-300)))
+    pool.append(dict(n_hop=1, consider_volume=False, use_effective_volume=True, moment_matrix=False,
+                     kernel='exp', alpha=1.0 / max(diam2, 1e-300) ** 0.5))
+    return pool
+
+
+def json_mod_steps(steps):
+    out = []
+    for st in steps:
+        if st['kind'] == 'modify':
+            out.append({k: v for k, v in st.items() if k in ('kind', 'op', 'by_id', 'by_eid')})
+        else:
+            out.append({k: st[k] for k in ('kind', 'kw', 'g', 'c', 'seed', 'data_by_id') if k in st})
+    return out
+
+
+def modify_stream(ctx, meshes, vols, corpus_mod=()):
+    """-> (failures, coq batch items, pseudo-cases)"""
+    import random
+    rng = ctx.rng
+    quick = ctx.tier == 'quick'
+    n_seq, n_ops = (8, 3) if quick else (40, 4)
+    seqs = []
+    for mid, mode, steps in corpus_mod:
+        seqs.append({'mesh': mid, 'mode': mode, 'steps': steps})
+    dims_pool = [(2, 2, 3), (3, 2, 2), (2, 3, 3), (2, 2, 4), (3, 3, 2)]
+    for k in range(n_seq):
+        et = 'tet' if k % 2 == 0 else 'hex'
+        mesh = G.gen_mesh(rng, et, tuple(rng.sample(dims_pool[k % len(dims_pool)], 3)), spacing_max=2,
+                          jitter=True, map_name=rng.choice(list(G.MAPS)),
+                          id_mode=rng.choice(['sparse', 'large', 'sparse']), shuffle=True)
+        MOD.add_unreferenced_nodes(rng, mesh, 2 if k % 3 else 0)
+        G.scale_mesh(mesh, rng.choice(SCALE_EXPS))
+        mid = f'd{k}'
+        meshes[mid] = mesh
+        mode = 'elemental' if k % 4 in (0, 1) else 'nodal'
+        if mode == 'elemental' and min_degree(mesh, 'elemental') < 1:
+            mode = 'nodal'
+        steps = MOD.plan_sequence(rng, mesh, mode, n_ops, mod_kw_pool(rng, mesh))
+        MOD.attach_data(random.Random, mesh, mode, steps)
+        seqs.append({'mesh': mid, 'mode': mode, 'steps': steps})
+    evals = run_mod_sequences(ctx, meshes, seqs, 'mod')
+    failures, items, pcases = [], [], []
+    n_steps = n_stale = 0
+    n_incons = sum(1 for ev in evals for e in ev if e['cur'].get('nodes_vs_NODE_inconsistent'))
+    cost_cache = {}
+    for sq, ev in zip(seqs, evals):
+        mesh0 = meshes[sq['mesh']]
+        reported = False
+        for e in ev:
+            st, k, cur = e['st'], e['step'], e['cur']
+            if st['kind'] == 'op':
+                n_steps += 1
+                ctx.count('in-place:op-after-' + '+'.join(
+                    sorted({x['op'] for x in sq['steps'][:k] if x['kind'] == 'modify'}) or ['nothing']))
+                ctx.case(['in-place', mesh0['descr'], mesh0['node_ids'][:4], k,
+                          [x.get('op') or kw_key(x['kw']) for x in sq['steps'][:k + 1]]], nontrivial=k > 0)
+                if e['info'].get('differs_from_fresh') and st['kw']['consider_volume']:
+                    n_stale += 1
+            if e['bad'] and not reported:
+                reported = True
+                check, detail = e['bad'][0]
+                c = {'mesh': sq['mesh'], 'kw': st.get('kw') or sq['steps'][0]['kw'], 'n': e['info'].get('n', 0),
+                     'mod_sequence': sq, 'failing_step': k, 'seq_id': id(sq)}
+                failures.append([len(mesh0['node_ids']) * 100 + k, 'impl-violation', mesh0, c,
+                                 'after an in-place modification every operator is the operator of the '
+                                 'modified mesh (' + check + ')', dict(detail, step=k),
+                                 {'affine-exact-after-modification': 'C15_convenience_affine_exact',
+                                  'const-zero-after-modification': 'C15_grad_const_zero',
+                                  'convenience-after-modification': 'C15_convenience_equals_matrices'
+                                  }.get(check, 'C15_moment_exact / model on the modified mesh')
+                                 + ' / in-place modification stream', check])
+            # correspondence with the Coq model on the reported mesh
+            if st['kind'] != 'op' or e['bad'] or 'error' in e['mats'] or st['kw'].get('kernel'):
+                continue
+            kw = st['kw']
+            if kw['moment_matrix'] and not e['info']['well']:
+                continue
+            est = cost_estimate(cur, kw, cost_cache)
+            if est > (4.0 if quick else 12.0):
+                continue
+            dm = f"{e['cur_id']}k{k}"
+            meshes[dm] = dict(cur, exact_vol=None)
+            ne = len(cur['conn'])
+            if kw['consider_volume']:
+                if 'slot_volumes' not in e['mats'] or sorted(e['mats']['slot_elem_ids']) != sorted(cur['elem_ids']):
+                    continue
+                by = dict(zip(e['mats']['slot_elem_ids'], [fr_hex(h) for h in e['mats']['slot_volumes']]))
+                vols[dm] = [by[i] for i in cur['elem_ids']]
+            else:
+                vols[dm] = [Fr(1)] * ne
+            n = e['info']['n']
+            pc = {'id': 200000 + len(pcases), 'mesh': dm, 'kw': kw, 'n': n, 'est': est, 'modified': True,
+                  'mod_sequence': sq, 'failing_step': k, 'seq_id': id(sq), 'base_mesh_obj': mesh0}
+            rows3 = [rows_from_coo(A, n) for A in e['mats']['matrices']]
+            conv = None
+            if est <= 1.0 and 'error' not in e['conv']:
+                pc['data'] = e['info']['data']
+                conv = e['conv']
+            pcases.append(pc)
+            items.append((pc['id'], pc, rows3, conv))
+    ctx.notes['in_place_modification_stream'] = {
+        'sequences': len(seqs), 'operator_steps': n_steps, 'coq_cases': len(items),
+        'failing_sequences': len(failures),
+        'volume_weighted_steps_differing_from_a_fresh_object (stale volume slot, property C19)': n_stale,
+        "operator_steps_in_a_state_where_nodes_and_nodal_data['NODE']_differ (property C08)": n_incons}
+    # shrink: [modifications..., failing op], then [.., earlier op, .., failing op]
+    failures.sort(key=lambda f: f[0])
+    todo = [f for f in failures[:3] if f[3]['mod_sequence']['steps'][f[3]['failing_step']]['kind'] == 'op']
+    if todo:
+        cand = []
+        for f in todo:
+            sq, k = f[3]['mod_sequence'], f[3]['failing_step']
+            ops = [j for j in range(k) if sq['steps'][j]['kind'] == 'op']
+            for keep_ops in [[]] + [[j] for j in reversed(ops)]:
+                idx = [j for j in range(k) if sq['steps'][j]['kind'] == 'modify' or j in keep_ops] + [k]
+                cand.append((f, {'mesh': sq['mesh'], 'mode': sq['mode'],
+                                 'steps': [sq['steps'][j] for j in idx]}))
+        ev2 = run_mod_sequences(ctx, meshes, [c for _, c in cand], 'mod_shrink')
+        done = set()
+        for (f, sq2), ev in zip(cand, ev2):
+            if id(f) in done:
+                continue
+            last = [e for e in ev if e['step'] == len(sq2['steps']) - 1]
+            if last and last[0]['bad']:
+                done.add(id(f))
+                f[3] = dict(f[3], mod_sequence=sq2, failing_step=len(sq2['steps']) - 1,
+                            shrunk_from=len(f[3]['mod_sequence']['steps']))
+                f[5] = dict(last[0]['bad'][0][1], step=len(sq2['steps']) - 1)
+                f[7] = last[0]['bad'][0][0]
+                f[0] -= 100000
+    return [tuple(f) for f in failures], items, pcases
 
 
 # -------------------------------------------------------------------- main
@@ -727,22 +951,34 @@ def prepare_cases(ctx, meshes, cases):
         c['n'] = n
         kw = dict(c['kw'])
         c['job_mat'] = len(jobs)
-        jobs.append({'id': len(jobs), 'mesh': c['mesh'], 'kind': 'matrices', 'kw': kw})
+        jobs.append({'id': len(jobs), 'mesh': c['mesh'], 'kind': 'matrices', 'kw': kw,
+                     'falsy': c.get('falsy')})
         # convenience function on integer data (1-3 features), fresh object
         c['with_conv'] = c.get('with_conv', rng.random() < 0.5 and
                                (c['kw'].get('kernel') is not None or c.get('est', 0.0) <= 1.2))
+        # boolean flags given as falsy / truthy non-bool values; parameters as ints
+        if 'falsy' not in c and not c.get('malformed') and rng.random() < 0.15:
+            c['falsy'] = rng.choice(['none', 'zero', 'npfalse'])
+        if c.get('falsy'):
+            ctx.count('flags-as:' + c['falsy'])
         if c['with_conv']:
             order1_nodal = bool(c['kw'].get('order1_only')) and c['kw']['mode'] == 'nodal' and mesh.get('k1')
             if 'data' not in c:
                 nfeat = rng.randint(1, 3)
+                if rng.random() < 0.1:
+                    nfeat = 12                 # many components: oracle only
+                    c['conv_no_coq'] = True
+                c['data_dtype'] = rng.choice(['float', 'float', 'int', 'bool'])
                 # the nodal convenience function takes data for ALL nodes and filters itself
                 n_data = len(mesh['node_ids']) if order1_nodal else n
-                c['data'] = [[rng.randint(-9, 9) for _ in range(nfeat)] for _ in range(n_data)]
+                c['data'] = [[(rng.randint(0, 1) if c['data_dtype'] == 'bool' else rng.randint(-9, 9))
+                              for _ in range(nfeat)] for _ in range(n_data)]
             if order1_nodal:
                 c['data_eff'] = [c['data'][k] for k in eff_mesh(mesh, c['kw'])['order1_keep']]
             c['job_conv'] = len(jobs)
             jobs.append({'id': len(jobs), 'mesh': c['mesh'], 'kind': 'conv', 'kw': kw,
-                         'data': c['data']})
+                         'data': c['data'], 'falsy': c.get('falsy'),
+                         'data_dtype': c.get('data_dtype', 'float')})
         if 'affine' not in c:
             c['affine'] = [([rng.randint(-5, 5) for _ in range(3)], rng.randint(-20, 20))
                            for _ in range(2)] + [([1, 0, 0], 0)]
@@ -818,10 +1054,20 @@ def describe(mesh, c):
 
 
 def replay_case(mesh, c, vols=None):
-    out = {'mesh': {k: mesh[k] for k in ('etype', 'node_ids', 'xyz', 'elem_ids', 'conn', 'blocks', 'k1', 'scale_exp')
+    mesh = c.get('base_mesh_obj', mesh)
+    out = {'mesh': {k: mesh[k] for k in ('etype', 'node_ids', 'xyz', 'elem_ids', 'conn', 'blocks', 'k1', 'scale_exp', 'xyz_dtype')
                     if k in mesh},
            'kw': c['kw'], 'data': c.get('data'), 'affine': c.get('affine')}
-    if c.get('sequence'):
+    if c.get('mod_sequence'):
+        k = c['failing_step']
+        base = c['mod_sequence']['mesh']
+        out['data'] = None
+        out['in_place_sequence'] = json_mod_steps(c['mod_sequence']['steps'][:k + 1])
+        out['failing_step'] = k
+        out['mode'] = c['mod_sequence']['mode']
+        if c.get('shrunk_from'):
+            out['shrunk_from_steps'] = c['shrunk_from']
+    elif c.get('sequence'):
         k = c['failing_step']
         out['data'] = None
         out['same_object_sequence'] = H.json_steps(c['sequence']['steps'][:k + 1])
@@ -879,7 +1125,7 @@ def main(ctx):
         ctx.notes['build_log_tail'] = log[-1500:]
 
     # 2. cases: corpus first, then generated
-    meshes, cases, corpus_seqs = {}, [], []
+    meshes, cases, corpus_seqs, corpus_mod = {}, [], [], []
     corpus_dir = lib.VERIF / 'corpus' / PID
     n_corpus = 0
     if corpus_dir.exists():
@@ -889,6 +1135,14 @@ def main(ctx):
             m = dict(rp['mesh'])
             m['descr'] = {'corpus': f.name, 'etype': m['etype']}
             meshes[mid] = m
+            if rp.get('in_place_sequence'):
+                steps = [dict(st) for st in rp['in_place_sequence']]
+                for st in steps:
+                    if st['kind'] != 'modify':
+                        st['kind'] = 'op'
+                corpus_mod.append((mid, rp.get('mode') or 'elemental', steps))
+                n_corpus += 1
+                continue
             if rp.get('same_object_sequence'):
                 steps = []
                 for st in rp['same_object_sequence']:
@@ -1009,11 +1263,17 @@ def main(ctx):
         # correspondence (kernel None only)
         if kw.get('kernel') is None:
             rows3 = [rows_from_coo(A, c['n']) for A in mats]
-            batch_items.append((c['id'], c, rows3, rc))
+            batch_items.append((c['id'], c, rows3, None if c.get('conv_no_coq') else rc))
     # 3b. same-object stream (several calls on ONE FEMData)
     hist_failures, hist_items, hist_cases = history_stream(ctx, meshes, {}, corpus_seqs)
     failures += hist_failures
     batch_items += hist_items
+    # 3c. in-place modification stream
+    mod_failures, mod_items, mod_cases = modify_stream(ctx, meshes, vols, corpus_mod)
+    failures += mod_failures
+    batch_items += mod_items
+    hist_cases = hist_cases + mod_cases
+    ctx.log(f"in-place modification stream: {ctx.notes.get('in_place_modification_stream')}")
     ctx.log(f"same-object stream: {ctx.notes.get('same_object_stream')}")
     ctx.notes['search_evaluations'] = n_oracle + ctx.notes.get('same_object_stream', {}).get('steps', 0)
     ctx.notes['skipped_moment_not_well_conditioned'] = skipped_sing
@@ -1051,7 +1311,9 @@ def main(ctx):
             failures.append((c['n'], 'correspondence', meshes[c['mesh']], c,
                              'implementation matrices = model matrices (all rows, within tolerance)',
                              {'failing (axis,row) pairs or model result': detail},
-                             'correspondence C15 (Model.corr_matrices)', 'matrices'))
+                             'correspondence C15 (Model.corr_matrices)' +
+                             (' on the mesh reported after in-place modification' if c.get('modified') else ''),
+                             'matrices-after-modification' if c.get('modified') else 'matrices'))
         for cid, detail in fc.items():
             c = by_id[cid]
             corr_fail += 1
@@ -1060,7 +1322,8 @@ def main(ctx):
                              {'failing vertices or model result': detail},
                              'correspondence C15 (Model.conv_agree)' +
                              (' / same-object stream' if c.get('history') else ''),
-                             'conv-history' if c.get('history') else 'conv'))
+                             'conv-history' if c.get('history') else
+                             'conv-after-modification' if c.get('modified') else 'conv'))
     elif not model_ok:
         ctx.notes['model_build_failed'] = True
     ctx.corr = {'cases': n_corr if model_ok else 0, 'disagreements': corr_fail,
@@ -1117,6 +1380,23 @@ def replay(path):
         c['data'] = case['data']
     if case.get('affine'):
         c['affine'] = [tuple(x) for x in case['affine']]
+    if case.get('in_place_sequence'):
+        steps = [dict(st) for st in case['in_place_sequence']]
+        for st in steps:
+            if st['kind'] != 'modify':
+                st['kind'] = 'op'
+        sq = {'mesh': 'r0', 'mode': case.get('mode') or 'elemental', 'steps': steps}
+        ev = run_mod_sequences(ctx, meshes, [sq], 'replay_mod')[0]
+        anybad = False
+        for k, st in enumerate(steps):
+            if st['kind'] == 'modify':
+                print(f'step {k}: modify {st["op"]}')
+        for e in ev:
+            anybad = anybad or bool(e['bad'])
+            print(f"step {e['step']}: operators {kw_key(e['st']['kw']) if e['st'].get('kw') else ''}:",
+                  e['bad'] or 'agree with the modified mesh')
+        print('property', 'VIOLATED' if anybad else 'holds', 'on this call sequence')
+        return 1 if anybad else 0
     if case.get('same_object_sequence'):
         steps = []
         for st in case['same_object_sequence']:
